@@ -69,7 +69,6 @@ def readCtx : Ctx → Text → Option Data
 /-! ## The property's domain -/
 
 def unsignedRepr (r : Text) : Text := match r with | '-' :: t => t | t => t
-def isNegRepr (r : Text) : Bool := match r with | '-' :: _ => true | _ => false
 
 /-- exponent of a Python float repr: `e`, a sign, at least two digits -/
 def isPyExp : Text → Bool
@@ -124,26 +123,25 @@ def ctxInDomain : Ctx → Bool
 
 /-! ## The side condition under which the rendering is faithful
 
-`inList` tells whether the value stands as a list element: a negative number is written with a bare
-minus sign, which only reads back where an operator expression may stand. Floats must happen to be
-Nix float tokens (Python reprs without a `.` are not), integers must fit 64 bits. -/
+Floats must happen to be Nix float tokens (Python reprs without a `.` are not), integers must fit
+64 bits. (A negative number may stand anywhere: as a list element it is written in parentheses.) -/
 
 mutual
-def elemReadable (inList : Bool) : Elem → Bool
+def elemReadable : Elem → Bool
   | .none => true
   | .bool _ => true
-  | .int i => i.natAbs ≤ nixIntMax && !(inList && i < 0)
-  | .float r => isNixFloat (unsignedRepr r) && !(inList && isNegRepr r)
+  | .int i => i.natAbs ≤ nixIntMax
+  | .float r => isNixFloat (unsignedRepr r)
   | .str s => !hasInterp s
   | .list xs => elemsReadable xs
 def elemsReadable : List Elem → Bool
   | [] => true
-  | x :: xs => elemReadable true x && elemsReadable xs
+  | x :: xs => elemReadable x && elemsReadable xs
 end
 
 mutual
 def valReadable : PyVal → Bool
-  | .elem e => elemReadable false e
+  | .elem e => elemReadable e
   | .dict kvs => keysNodup (kvs.map (·.1)) && kvsReadable kvs
 def kvsReadable : List (Text × PyVal) → Bool
   | [] => true
@@ -152,7 +150,7 @@ end
 
 mutual
 def exprReadable : Expr → Bool
-  | .raw e => elemReadable false e
+  | .raw e => elemReadable e
   | .aset bs _ => keysNodup (bs.map (·.1)) && bsReadable bs
 def bsReadable : List (Text × Expr) → Bool
   | [] => true
@@ -167,28 +165,28 @@ def ctxReadable : Ctx → Bool
   | .setItem d k v => valReadable (.dict d) && isDataKey k && valReadable v
   | .setItemOn d _ k v => valReadable (.dict d) && isDataKey k && valReadable v
 
-/-! ## The three documented defects, named directly
+/-! ## The two documented defects that remain, named directly
 
 For values of the domain, `…Readable` is equivalent to avoiding them (`Lemmas/Value.lean`,
-`readable_eq_avoids`): no negative number as a list element, no float whose repr lacks a `.`, no
-integer outside 64 bits. The harness classifies failing inputs with the same three tests. -/
+`readable_eq_avoids`): no float whose repr lacks a `.`, no integer outside 64 bits. The harness
+classifies failing inputs with the same two tests. -/
 
 mutual
-def elemAvoids (inList : Bool) : Elem → Bool
+def elemAvoids : Elem → Bool
   | .none => true
   | .bool _ => true
-  | .int i => i.natAbs ≤ nixIntMax && !(inList && i < 0)
-  | .float r => (unsignedRepr r).contains '.' && !(inList && isNegRepr r)
+  | .int i => i.natAbs ≤ nixIntMax
+  | .float r => (unsignedRepr r).contains '.'
   | .str _ => true
   | .list xs => elemsAvoid xs
 def elemsAvoid : List Elem → Bool
   | [] => true
-  | x :: xs => elemAvoids true x && elemsAvoid xs
+  | x :: xs => elemAvoids x && elemsAvoid xs
 end
 
 mutual
 def valAvoids : PyVal → Bool
-  | .elem e => elemAvoids false e
+  | .elem e => elemAvoids e
   | .dict kvs => kvsAvoid kvs
 def kvsAvoid : List (Text × PyVal) → Bool
   | [] => true
